@@ -22,7 +22,9 @@ use unic_locale_impl::{ExtensionsMap, Locale};
 // the from_parts product (DESIGN §4 C04 (b))
 // ------------------------------------------------------------------------------------------
 
-pub const FP_VARIANTS: [&str; 5] = ["valencia", "1996", "fonipa", "abcde", "1abc"];
+// (two of the five are an order-hazard pair: `aaaaz` < `zaaaa` lexicographically, the other way
+// round as little-endian integers; `fonipa` vs `zaaaa` separates length-first orders)
+pub const FP_VARIANTS: [&str; 5] = ["valencia", "1996", "fonipa", "zaaaa", "aaaaz"];
 
 pub struct PartsDomain {
     pub ids: Vec<(Language, Option<Script>, Option<Region>, MLangId)>,
